@@ -113,6 +113,17 @@ func runC09(c *sim.Ctx) *sim.Violation {
 		frame, fm = ref.Encode(a)
 		typ = a.TypeName()
 	}
+	if a.Type == ref.Connect && t.Bool(1, 3) {
+		// a CONNECT that announces an earlier protocol version (name and level of MQTT
+		// 3.1 / 3.1.1): not a valid v5 packet, but a frame that ends inside a field
+		// ends inside a field whatever it announces
+		b := a.Clone()
+		pv := gen.LegacyProtocols[t.Int(len(gen.LegacyProtocols))]
+		b.ProtoName, b.ProtoVer = []byte(pv.Name), pv.Ver
+		a = b
+		frame, fm = ref.Encode(a)
+		c.Count("probe.base-frame-CONNECT-announcing-an-earlier-protocol-version")
+	}
 	if t.Bool(1, 4) {
 		// one or two properties that MQTT defines but does not allow in this packet:
 		// the base frame is then not valid, but (a)-(d) do not depend on that - a
